@@ -223,6 +223,14 @@ structure Built where
   accs : List (Name × SlotV) := []
 deriving Inhabited
 
+/-- `setattr(cls, name, aobj)`: the accessible replaces what lies in the `__dict__` of the new class under its name — but
+never a Property object written in that class body (Python: `create_from_value` refuses a Property as bare value, the class
+definition fails with a ProgrammingError) -/
+def aputAcc (l : List (Name × EntryV)) (k : Name) (a : AccV) : List (Name × EntryV) :=
+  match aget? l k with
+  | some (.prop _) => l
+  | _ => aput l k (.acc a)
+
 /-- body of the loop over the accessibles found (modulebase.py:90-110, repaired) -/
 def buildOne (T : Tables) (self : Name) (w : Walk) (b : Built) (ns : Name × SlotV) : Built :=
   let name := ns.1
@@ -232,7 +240,7 @@ def buildOne (T : Tables) (self : Name) (w : Walk) (b : Built) (ns : Name × Slo
   | some .none => b
   | some (.bare v _ opt) =>
     let a := createFromValue T self name slot.val.isCmd m v opt
-    { dict := aput b.dict name (.acc a), accs := b.accs ++ [(name, ⟨self, a⟩)] }
+    { dict := aputAcc b.dict name a, accs := b.accs ++ [(name, ⟨self, a⟩)] }
   | _ =>
     if slot.owner != self then
       match slot.val.merged with
@@ -240,13 +248,13 @@ def buildOne (T : Tables) (self : Name) (w : Walk) (b : Built) (ns : Name × Slo
         if mm.eqv m then { b with accs := b.accs ++ [(name, slot)] }     -- shared unchanged
         else
           let a := mergedAcc T self name slot.val.isCmd [] .unset m
-          { dict := aput b.dict name (.acc a), accs := b.accs ++ [(name, ⟨self, a⟩)] }
+          { dict := aputAcc b.dict name a, accs := b.accs ++ [(name, ⟨self, a⟩)] }
       | none =>
         let a := mergedAcc T self name slot.val.isCmd [] .unset m
-        { dict := aput b.dict name (.acc a), accs := b.accs ++ [(name, ⟨self, a⟩)] }
+        { dict := aputAcc b.dict name a, accs := b.accs ++ [(name, ⟨self, a⟩)] }
     else
       let a := mergedAcc T self name slot.val.isCmd slot.val.own slot.val.ownDt m
-      { dict := aput b.dict name (.acc a), accs := b.accs ++ [(name, ⟨self, a⟩)] }
+      { dict := aputAcc b.dict name a, accs := b.accs ++ [(name, ⟨self, a⟩)] }
 
 def moveFront {α : Type} (l : List (Name × α)) (k : Name) : List (Name × α) :=
   match aget? l k with
